@@ -5,12 +5,12 @@
 (* lists its members report.                                                     *)
 EXTENDS FsSemOps, TLC, Json
 
-CONSTANTS MaxFiles, MaxMembers, WithCase
+CONSTANTS MaxFiles, MaxMembers, WithCase, MaxPfx
 
 \* names that are prefixes of one another, case variants of files and folders, nesting
 NamesMC == {<<"a", "x">>, <<"a", "X">>, <<"ab", "x">>, <<"a", "b", "x">>, <<"x">>, <<"A", "x">>}
 Names == IF WithCase THEN NamesMC ELSE {<<"a", "x">>, <<"ab", "x">>, <<"a", "b", "x">>, <<"x">>}
-Prefixes == {<<>>, <<"a">>, <<"a", "b">>}
+Prefixes == {p \in {<<>>, <<"a">>, <<"a", "b">>} : Len(p) <= MaxPfx}
 FoldMC == [c \in {"A", "X", "AB", "B"} |-> CASE c = "A" -> "a" [] c = "X" -> "x" [] c = "AB" -> "ab" [] c = "B" -> "b"]
 Queries == {<<"x">>, <<"X">>, <<"a", "x">>, <<"A", "X">>, <<"ab", "x">>, <<"a", "b", "x">>, <<"b", "x">>, <<"B", "x">>}
 Folders == {<<>>, <<"a">>, <<"A">>, <<"ab">>, <<"a", "b">>, <<"b">>, <<"x">>}
